@@ -398,3 +398,21 @@ def family_codes(quick, families=('planar', 'toric', 'rotatedplanar', 'rotatedto
     out.append(('basic', ('five', ())))
     out.append(('basic', ('steane', ())))
     return out
+
+
+def model_parallel(ctx, engine, lines, prefix=(), nthreads=16, timeout=2400):
+    """run a (possibly stateful) model engine on `lines` in parallel: the request list is cut into contiguous
+    chunks, each chunk is preceded by the `prefix` lines (e.g. the `mat` definitions); replies in request order"""
+    from concurrent.futures import ThreadPoolExecutor
+    if not lines:
+        return []
+    k = max(1, min(nthreads * 4, len(lines) // 50 or 1))
+    size = (len(lines) + k - 1) // k
+    parts = [lines[i:i + size] for i in range(0, len(lines), size)]
+    prefix = list(prefix)
+
+    def one(part):
+        return ctx.model(engine, prefix + part, timeout=timeout)[len(prefix):]
+    with ThreadPoolExecutor(max_workers=nthreads) as ex:
+        outs = list(ex.map(one, parts))
+    return [o for part in outs for o in part]
